@@ -148,6 +148,9 @@ func preloadEntryPoint(db *gorm.DB, joins []string, relationships *schema.Relati
 					}
 				case reflect.Struct, reflect.Pointer:
 					reflectValue := rel.Field.ReflectValueOf(db.Statement.Context, rv)
+					if reflectValue.Kind() == reflect.Ptr && reflectValue.IsNil() {
+						continue // no joined record, nothing to preload below it (as in the slice branch)
+					}
 					tx := preloadDB(db, reflectValue, reflectValue.Interface())
 					if err := preloadEntryPoint(tx, nestedJoins, &tx.Statement.Schema.Relationships, preloadMap[name], associationsConds); err != nil {
 						return err
